@@ -288,6 +288,57 @@ func jobC09(c *rt.Ctx) {
 			}
 		}
 	}
+	// caller buffers refilled between calls: an honest key / signature verified from a buffer, then a
+	// small-order key (or R) written into the SAME buffer - it is refused on its content, through single
+	// and batch verification, and the honest pair is accepted again afterwards (a screening result kept
+	// by slice identity, or next to a stored slice header, would carry over)
+	c.Require("buffer-reuse")
+	for vi, vs := range vAll {
+		for ti := 0; ti < 8; ti++ {
+			if !c.Take() {
+				continue
+			}
+			c.Class("buffer-reuse")
+			c.Distinct(fmt.Sprintf("c09reuse %d %d", vi, ti), true)
+			good := honestTriple(9200+vi, msgOf(1, vs), vs)
+			kb, sb := make([]byte, 32), make([]byte, 64)
+			pubs := []PublicKey{kb, kb, kb, kb, kb}
+			msgs := [][]byte{good.msg, good.msg, good.msg, good.msg, good.msg}
+			sigs := [][]byte{sb, sb, sb, sb, sb}
+			step := func(key, sig []byte, what string, want bool) {
+				copy(kb, key)
+				copy(sb, sig)
+				got, pv := func() (ok bool, pv interface{}) {
+					defer func() { pv = recover() }()
+					return VerifyWithOptions(kb, good.msg, sb, vs.opts(false)), nil
+				}()
+				all, valid, err, bpv := func() (a bool, v []bool, e error, pv interface{}) {
+					defer func() { pv = recover() }()
+					a, v, e = VerifyBatch(rt.NewRng(c.Seed, "c09reuse"), pubs, msgs, sigs, vs.opts(false))
+					return
+				}()
+				c.Step(2)
+				bad := pv != nil || got != want || bpv != nil || err != nil || len(valid) != 5 || all != want
+				for _, v := range valid {
+					bad = bad || v != want
+				}
+				if bad {
+					c.Violation("C09 buffer-reuse "+what, fmt.Sprintf("%s from reused key / signature buffers (%s, default mode): single %v (panic %v), batch %v all=%v err=%v (panic %v); want %v", what, vs, got, pv, valid, all, err, bpv, want),
+						map[string]interface{}{"variant": vs.String(), "step": what, "key": ref.Hex(kb), "sig": ref.Hex(sb)})
+				}
+			}
+			for e := 0; e < len(ref.Encodings(ref.Torsion(ti))); e++ {
+				smallKey := mkTriple(big.NewInt(0), ti, e, big.NewInt(5), 0, 0, good.msg, vs)
+				smallR := mkTriple(a0, 0, 0, big.NewInt(0), ti, e, good.msg, vs)
+				step(good.key, good.sig, "honest pair", true)
+				step(smallKey.key, smallKey.sig, fmt.Sprintf("small-order key T%d/enc%d after an honest key", ti, e), false)
+				step(good.key, good.sig, "honest pair after a small-order key", true)
+				step(smallR.key, smallR.sig, fmt.Sprintf("small-order R T%d/enc%d after an honest signature", ti, e), false)
+				step(good.key, good.sig, "honest pair after a small-order R", true)
+				step(smallKey.key, smallKey.sig, fmt.Sprintf("small-order key T%d/enc%d again", ti, e), false)
+			}
+		}
+	}
 	// scan: predicate == model for every y in [0, 2^13) x both sign bits (thorough 2^16)
 	lim := 1 << 14
 	if c.Thorough() {
